@@ -18,7 +18,7 @@ TECHNIQUE = (
 RULE = (
     "arbitrary: plain and source = all strings <= n over {x,y,<,' ',>} (source also None), all ordered span tuples of "
     "<= 2 spans (empty, touching, nested, overlapping, duplicate, unsorted; 3 spans for |plain| <= 3 in thorough) x 3 modes "
-    "x 2 engines; forced: plain 'wxyz' with <= 2 insertions of tags/whitespace at every gap; trees: all element trees with "
+    "x 2 engines; arbitrary2: every plain text of 5 characters over {x,y} x every source <= 3 over {x,y,#} x single spans and partially overlapping pairs x 2 engines; forced: plain 'wxyz' with <= 2 insertions of tags/whitespace at every gap; trees: all element trees with "
     "<= 2 elements (tags i, b, p and I, em, B) over 4 letters, each also through the annotator= hook with the concatenating function; markers: 6 families of before/after strings with regex/format metacharacters x all forced sources "
     "x all <= 2-span tuples x 3 modes. distinct = distinct (plain, source, spans); non-trivial = >= 1 non-empty span and a "
     "source different from plain, or >= 2 spans."
@@ -64,6 +64,12 @@ def check(plain, source, ss, mode, dmp, marks=None, with_annotator=False):
     if not isinstance(out, str) or stripped != target:
         return [(f"strip-{mode}", f"output {out!r} does not strip to the target {target!r}" + (f" (markers {marks[:k]})" if marks else ""))]
     if with_annotator:
+        try:
+            out_it = annot.annotate(plain, ss, source, mode, dmp, marks, one_shot=True)
+        except Exception as e:  # noqa: BLE001
+            return [(f"iterator-raise-{mode}", short_exc(e))]
+        if out_it != out:
+            return [(f"iterator-differs-{mode}", f"with the annotations passed as a one-shot iterator the output is {out_it!r}, as a list {out!r}")]
         # the documented custom-annotator hook, given the concatenating function the default path uses, must produce the same
         # output, and every piece it is handed must be a piece of that output
         seen = []
@@ -96,6 +102,8 @@ def shards(tier, seed):
     out = []
     for i in range(0, len(plains), 3):
         out.append({"part": "arbitrary", "lo": i, "hi": min(i + 3, len(plains)), "pn": pn, "sn": sn, "k3": tier == "thorough"})
+    for lo in range(0, 2**5 + 2**6 if tier == "thorough" else 2**5, 4):
+        out.append({"part": "arbitrary2", "lo": lo, "hi": lo + 4})
     for plain in ["wxyz", "wwxw"]:
         for r in range(8):
             out.append({"part": "forced", "plain": plain, "r": r, "n": 8, "kmax": 2 if tier == "quick" else 3})
@@ -156,6 +164,17 @@ def run_shard(sh):
                     for lab, det in res:
                         case = {"plain": plain, "source": source, "spans": [list(x) for x in ss], "mode": mode, "dmp": True, "marks": [list(m) for m in marks]}
                         st.violation(case, f"{lab}: {det} :: plain={plain!r} source={source!r} spans={ss}", label=f"markers-{lab}")
+        return st
+    if sh["part"] == "arbitrary2":
+        # plain texts of 5 (thorough: and 6) characters over {x, y} against every source <= 3 over {x, y, #}: replace blocks that
+        # shrink by several characters, spans that start inside and end past them; both engines
+        plains = ["".join(t) for n in (5, 6) for t in itertools.product("xy", repeat=n)][sh["lo"] : sh["hi"]]
+        sources = annot.strings(["x", "y", "#"], 3)[1:]
+        for plain in plains:
+            sets = list(annot.span_sets(len(plain), 1)) + [(a, b) for a in annot.spans_of(len(plain), False) for b in annot.spans_of(len(plain), False) if a[0] <= b[0] < a[1] < b[1]]
+            for source in sources:
+                for ss in sets:
+                    run(plain, source, ss, ("unchecked", "skip"), (True, False))
         return st
     if sh["part"] == "arbitrary":
         plains = annot.strings(ALPHA, sh["pn"])[sh["lo"] : sh["hi"]]
